@@ -163,6 +163,11 @@ func decodeMapBodyInto(blob []byte, v reflect.Value, fields []mapBodyField) erro
 		if !ok {
 			continue
 		}
+		if len(raw) == 0 {
+			// msgpack nil (a nil slice, map or pointer was saved): RawMessage keeps nothing for it
+			// and Unmarshal of an empty message fails with EOF — the field simply stays nil.
+			continue
+		}
 		fv := v.Field(f.Index)
 		if !fv.CanAddr() {
 			continue
